@@ -24,6 +24,7 @@ import (
 	"fmt"
 	"math/rand"
 	"os"
+	"reflect"
 	"sort"
 	"strconv"
 	"strings"
@@ -483,9 +484,13 @@ func (s *vSim) proj(n *vNode) jNode {
 	j.Pcc, j.Xfer = r.pendingConfigChange, r.leaderTransferTarget
 	for _, ctx := range r.readIndex.queue {
 		st := r.readIndex.pending[ctx]
+		// read through reflection: the representation of the confirmation set is an
+		// implementation detail (the properties use the delivered messages instead)
 		conf := []uint64{}
-		for id := range st.confirmed {
-			conf = append(conf, id)
+		if cv := reflect.ValueOf(st).Elem().FieldByName("confirmed"); cv.IsValid() && cv.Kind() == reflect.Map {
+			for _, kv := range cv.MapKeys() {
+				conf = append(conf, kv.Uint())
+			}
 		}
 		sort.Slice(conf, func(a, b int) bool { return conf[a] < conf[b] })
 		j.Riq = append(j.Riq, jRi{Ctx: ctx.Low, Index: st.index, From: st.from, Conf: conf})
